@@ -1146,6 +1146,16 @@ func (x *Exec) zeroGhosts(st *State, n *types.Named, ref string) {
 		es := c.sortOf(elem)
 		st.fields[key] = c.Define("H_"+key, arrSort("Int", es), store(x.fieldArr(st, key), ref, c.zero(elem).S))
 	}
+	// embedded (by-value) struct fields are sub-objects with their own ghost state
+	stt := n.Underlying().(*types.Struct)
+	for i := 0; i < stt.NumFields(); i++ {
+		ft := stt.Field(i).Type()
+		if isEmbeddedStructField(ft) {
+			if sub, ok := types.Unalias(ft).(*types.Named); ok {
+				x.zeroGhosts(st, sub, add(ref, subOffset(n, i)))
+			}
+		}
+	}
 }
 
 func (a *Activation) load(p Val, st *State, rc string, pos token.Pos) Val {
@@ -1936,6 +1946,12 @@ func (e *Engine) scanWritesNoSpec(fn *ssa.Function, blocks []*ssa.BasicBlock, ws
 // havoc replaces every heap array that the write set may touch by a fresh one.
 // If fr != nil (callee frame), locations outside it keep their value for refs allocated before (<= pre.alloc).
 func (x *Exec) havoc(st *State, pre *State, ws *WriteSet, fr *FrameSpec, only func(key string) bool) {
+	x.havocT(st, pre, ws, fr, nil)
+}
+
+// havocT: allocTypes (if non-nil) is the set of struct instantiations the callee may allocate; a field array whose owner
+// type is neither in that set nor mentioned by the callee's frame cannot change at all.
+func (x *Exec) havocT(st *State, pre *State, ws *WriteSet, fr *FrameSpec, allocTypes map[string]bool) {
 	c := x.ctx
 	x.havocSeen = true
 	if ws.allocs {
@@ -1953,6 +1969,12 @@ func (x *Exec) havoc(st *State, pre *State, ws *WriteSet, fr *FrameSpec, only fu
 		}
 		if !ws.fields[bare] && !ws.fields["*"] {
 			continue
+		}
+		if allocTypes != nil && fr != nil && fr.has && len(fr.fields[key]) == 0 {
+			owner := key[:strings.LastIndex(key, ".")]
+			if !allocTypes[owner] {
+				continue // typed memory: the callee neither owns a frame on this array nor allocates objects of this type
+			}
 		}
 		srt := x.heap.fieldSort[key]
 		old := x.fieldArr(pre, key)
